@@ -146,6 +146,32 @@ theorem C04_declined_untouched (env : Env W HS) (name : String) (key ann v : Sem
   subst hdecl
   cases v <;> first | exact absurd rfl hv | rfl
 
+/-- a closure variable is shown to the handler and never re-bound: whatever the handler answers, the variables of
+    the call are what they were (an answer that differs is the handler's business — ptera's interactor raises
+    `OverrideException`, M3: `C04_closure_refused`) -/
+theorem C04_closure_never_rebound (env : Env W HS) (x : String) (st : St W HS) :
+    (freeHook env x st).2.loc = st.loc ∧ (freeHook env x st).2.w = st.w := by
+  unfold freeHook
+  cases env.hk with
+  | none => exact ⟨rfl, rfl⟩
+  | some cfg =>
+    simp only
+    rw [bind_def_M]
+    unfold lookup
+    cases lookupV env st x with
+    | none => exact ⟨rfl, rfl⟩
+    | some v =>
+      simp only
+      split
+      · rw [bind_def_M]
+        unfold interactSem
+        rcases env.host.hnd { name := x, key := .noneV, ann := annValOpt env none, value := v, ovr := false } st.hs
+          with ⟨r, hs1⟩
+        cases r with
+        | err e => exact ⟨rfl, rfl⟩
+        | ok a => cases a <;> exact ⟨rfl, rfl⟩
+      · exact ⟨rfl, rfl⟩
+
 /-- a test: `def f(a): b = a; return b` with `b` overridden to `b + 3` returns 8 through the rewritten code -/
 theorem C04_example_program :
     Ptera.Props.C01.isRetInt (runInstr (ctxOf PyLite.host [⟨some "b", none⟩] Ptera.Props.C01.sample 5).envI 5
